@@ -57,6 +57,7 @@ class Tracer:
         self.cur_called = []
         self.bad_calls = []      # (sid, why)
         self.dups = 0
+        self.cur_vectors = []    # decoded decision vectors the problem function received during the current step
 
     def sid(self, obj):
         k = id(obj)
@@ -76,10 +77,12 @@ class Tracer:
         if solution.evaluated:
             self.bad_calls.append((s, "problem function called on a solution whose evaluated flag is set"))
         self.cur_called.append(s)
+        self.cur_vectors.append(repr(list(solution.variables)))
 
     def take(self):
         b, c = self.cur_batches, self.cur_called
         self.cur_batches, self.cur_called = [], []
+        self.last_vectors, self.cur_vectors = self.cur_vectors, []
         return b, c
 
 
@@ -135,6 +138,12 @@ def trace_run(cfgd, budgets):
         problem = alg.problem
         problem.hook = tr.on_call
         tr.take()
+        injected = list(getattr(alg, "verif_injected", []))
+        inj_decoded = {}
+        for s_ in injected:
+            dec = repr([problem.types[i].decode(s_.variables[i]) for i in range(problem.nvars)])
+            inj_decoded[dec] = [float(o) for o in s_.objectives]
+        first_step_done = [alg.nfe != 0]
         for N in budgets:
             nfe0 = alg.nfe
             real0 = problem.calls
@@ -146,6 +155,28 @@ def trace_run(cfgd, budgets):
                 b, called = tr.take()
                 st = {"batches": b, "nfe": a.nfe, "called": called, "cfg": state["cfg"], "real": problem.calls}
                 steps.append(st)
+                # ---- end-to-end clause for warm starts (InjectedPopulation holding already-evaluated solutions) ----
+                if injected and not first_step_done[0]:
+                    first_step_done[0] = True
+                    submitted = sum(len(x) for x in b)
+                    consumed = min(len(injected), len(b[0]) if b else 0)
+                    if len(called) > submitted - consumed:
+                        findings.append(("injected-evaluated-solution-evaluated-again",
+                                         "initialisation submitted %d solutions, %d of them injected already evaluated, but the problem function ran %d times "
+                                         "(at most %d allowed)" % (submitted, consumed, len(called), submitted - consumed)))
+                    if cfgd["vtype"] == "real":
+                        again = [v for v in tr.last_vectors if v in inj_decoded]
+                        if again:
+                            findings.append(("injected-evaluated-solution-evaluated-again",
+                                             "the problem function was called with the decision vector of %d injected, already evaluated solution(s), e.g. %s" % (
+                                                 len(again), again[0][:90])))
+                    held = getattr(a, "population", None) or getattr(a, "particles", None) or []
+                    for h in held:
+                        dec = repr([problem.types[i].decode(h.variables[i]) for i in range(problem.nvars)])
+                        if dec in inj_decoded and ([float(o) for o in h.objectives] != inj_decoded[dec] or not h.evaluated):
+                            findings.append(("injected-solution-lost-its-evaluation", "a held solution with injected variables carries objectives %r, injected %r" % (
+                                list(h.objectives), inj_decoded[dec])))
+                            break
                 # ---- oracle, per step (the statement's clauses, independent of the model) ----
                 if state["prev"] - nfe0 >= N:
                     findings.append(("step-started-after-budget-met", "a step was started although nfe-nfe0=%d >= N=%d" % (state["prev"] - nfe0, N)))
@@ -265,9 +296,11 @@ def configs(ctx):
             out.append({"alg": alg, "vtype": vts[rng.randrange(len(vts))], "pop": p, "off": p, "variator": "mutation", "seed": seedbase + len(out)})
             out.append({"alg": alg, "vtype": "real", "pop": p + 1 if alg != "NSGAIII" else 3, "off": 4, "variator": "pcx3", "seed": seedbase + len(out)})
         if alg not in ("CMAES",):
+            # warm starts: InjectedPopulation holding k already-evaluated solutions, k <, = and > the population size
             p = max(3, algos.MIN_POP[alg])
-            out.append({"alg": alg, "vtype": "real", "pop": p if alg != "NSGAIII" else 1, "off": 2, "inject": 2 if alg != "PAES" else 1,
-                        "seed": seedbase + len(out)})
+            eff = {"NSGAIII": 4, "PAES": 1}.get(alg, p)          # population the algorithm really builds
+            for k in sorted(set(x for x in (eff - 1, eff, eff + 2) if x >= 1)):
+                out.append({"alg": alg, "vtype": "real", "pop": p if alg != "NSGAIII" else 1, "off": 2, "inject": k, "seed": seedbase + len(out)})
         if alg not in ("GA", "ES", "IBEA", "MOEAD", "NSGAIII"):
             # constrained problem (MOEAD / NSGAIII / IBEA have documented restrictions on it, see DESIGN.md section 7)
             p = max(4, algos.MIN_POP[alg])
@@ -351,7 +384,7 @@ def run(ctx):
     lits, meta = [], []
     dist = {"per_algorithm": {}, "budget_relation": {}, "calls_per_trace": {1: 0, 2: 0, 3: 0}, "steps_total": 0,
             "batches_total": 0, "members_submitted": 0, "members_already_evaluated": 0, "restart_batches": 0,
-            "rejected_inputs": 0, "aborted": 0, "batches_listing_an_object_twice": 0, "empty_batches": 0, "sizes": {}}
+            "rejected_inputs": 0, "aborted": 0, "batches_listing_an_object_twice": 0, "warm_start_traces": 0, "warm_start_k_vs_population": {"k<pop": 0, "k=pop": 0, "k>pop": 0}, "empty_batches": 0, "sizes": {}}
     for cfgd in cfgs:
         try:
             bounds = pilot_boundaries(cfgd)
@@ -378,6 +411,12 @@ def run(ctx):
             calls = res["calls"]
             alg = cfgd["alg"]
             dist["batches_listing_an_object_twice"] += res["dups"]
+            if cfgd.get("inject") and calls and calls[0]["steps"] and calls[0]["nfe0"] == 0:
+                dist["warm_start_traces"] += 1
+                first = calls[0]["steps"][0]["batches"]
+                n0 = len(first[0]) if first else 0
+                rel = "k<pop" if cfgd["inject"] < n0 else ("k=pop" if cfgd["inject"] == n0 else "k>pop")
+                dist["warm_start_k_vs_population"][rel] += 1
             dist["empty_batches"] += sum(1 for c in calls for st in c["steps"] for b in st["batches"] if not b)
             dist["per_algorithm"][alg] = dist["per_algorithm"].get(alg, 0) + 1
             dist["calls_per_trace"][len(calls)] = dist["calls_per_trace"].get(len(calls), 0) + 1
@@ -420,7 +459,8 @@ def run(ctx):
         "constructor or first step and are not run; IBEA raising 'objective with empty range' on a degenerate population is counted under rejected_inputs")
     ctx.coverage["rejected_config_probe"] = zero_size_probe()
     ctx.rule = ("traces = every shipped algorithm x size configurations (1 where legal, odd sizes with two-child variators, offspring < parents, one-child and "
-                "three-child variators, injected already-evaluated members, constrained problem, eps-NSGA-II with short restart windows, MOEA/D with utility "
+                "three-child variators, warm starts through InjectedPopulation with k <, = and > population_size already-evaluated solutions (end-to-end clause: the "
+                "initialisation step may call the problem function at most submitted - consumed times and never with an injected solution's variables), constrained problem, eps-NSGA-II with short restart windows, MOEA/D with utility "
                 "updates) x budgets {0, 1, b_k-1, b_k, b_k+1 for the observed step boundaries b_k} x 1-3 consecutive run() calls; non-trivial = at least one step "
                 "and (more than one call, or an already-evaluated member was submitted, or the budget was overshot); distinct by (configuration, seed, budgets)")
     if lits:
